@@ -1,806 +1,140 @@
 (* Proofs about the AES-CTR model (Crypto/AesCtrModel.v), for an arbitrary block function E whose
-   outputs are 16 bytes long:
+   outputs are 16 bytes long.
+
+   Part 1 (this file): the model takes ALL its bookkeeping arithmetic from the statements regenerated
+   from the C text (Gen/Repo_aes_arith.v), evaluated with C integer semantics
+   (Crypto/AesCtrArith.v).  For every state and EVERY call length below 2^64 - no bound like 2^32
+   anywhere - each function of the model computes exactly what the function with the hand-written
+   reference arithmetic (Crypto/AesCtrRef.v) computes: generate_eq, use_eq, pre_whole_eq, whole_eq,
+   post_whole_eq, stream_eq, ni_loop_eq, wholeblocks_aesni_eq, stream_aesni_eq, stream_cfg_eq.
+   These are the lemmas that stop checking when a statement of the C is rewritten into something
+   that differs for SOME length (e.g. `stream->bytectr += *buflen & ~15U`, wrong from 2^32 on);
+   rewrites that mean the same in C (operand order, casts, `& ~(size_t)15`) keep checking.
+
+   Part 2: the theorems proved for the reference arithmetic (Crypto/AesCtrRefProofs.v) transferred:
      M1  the invariant ctr_inv is established by init2 from any prior state and preserved by every
          stream call, on either path;
      M2  the bytes produced by any sequence of calls are ctr_spec of the concatenated input;
          corollaries: partition independence, involution, re-initialisation restarts;
      C03-M2  the AES-NI bulk path and the portable loop produce the same bytes and the same
          observable state, so a stream may switch between them call by call. *)
-From Coq Require Import NArith ZArith List Arith Bool Lia ZifyNat ZifyN.
+From Coq Require Import NArith ZArith List Arith Bool Lia ZifyNat ZifyN ZifyBool.
 From LCP Require Import Base.CheckedMem.
 From LCP Require Import Crypto.AesSpec.
 From LCP Require Import Accel.AesNi.
+From LCP Require Import Crypto.AesCtrArith.
+From LCP Require Import Gen.Repo_aes_arith.
 From LCP Require Import Crypto.AesCtrModel.
+From LCP Require Import Crypto.AesCtrRef.
+From LCP Require Export Crypto.AesCtrRefProofs.
 Import ListNotations.
 Local Open Scope N_scope.
 
 Ltac Zify.zify_post_hook ::= Z.to_euclidean_division_equations.
 
-(* split conjunctions without unfolding anything *)
-Ltac splits := repeat match goal with |- _ /\ _ => split end.
+(* ------------------------------------------------------------------ symbolic evaluation *)
+(* the regenerated data *)
+Ltac data := cbv [ty_bytectr ty_pblk gen_assert gen_pblk_idx gen_stmts gen_wrap_cond gen_be64
+                  use_ty_buflen use_ty_nbytes use_ty_bytemod use_stmts
+                  pre_ty_buflen pre_decls pre_stmts pre_cond1 pre_cond2 pre_call1 pre_call2
+                  post_ty_buflen post_cond post_call sw_ty_buflen sw_cond sw_call ni_ty_buflen ni_cond
+                  wb_ty_buflen wb_decls wb_prologue wb_body wb_cond wb_epilogue].
+(* the evaluator: everything that depends only on the expression trees and on the C types computes;
+   the values stay symbolic (no Z or N operation is unfolded) *)
+Ltac ev := cbv [eval run assign get lookup set var locals env_app fst snd valN valZ argN def
+                V_BYTECTR V_BUFLEN V_INOFF V_OUTOFF V_NBYTES V_BYTEMOD V_PBLKB
+                id_eqb peqb uac promote arith shift fit signed cvt conv cty_eqb modulus half width is_cmp
+                body_parts the_memcpy drop_vec forallb is_assign is_vec].
+(* closed numerals *)
+Ltac closedP p := lazymatch p with xH => idtac | xO ?q => closedP q | xI ?q => closedP q | _ => fail end.
+Ltac closedZ t := lazymatch t with Z0 => idtac | Zpos ?p => closedP p | Zneg ?p => closedP p | _ => fail end.
+Ltac fold2 f := repeat match goal with
+  | |- context [f ?a ?b] => closedZ a; closedZ b; let r := eval vm_compute in (f a b) in change (f a b) with r end.
+Ltac fold_closed :=
+  repeat (progress (fold2 Z.add; fold2 Z.sub; fold2 Z.mul; fold2 Z.modulo; fold2 Z.div; fold2 Z.quot; fold2 Z.rem;
+          fold2 Z.land; fold2 Z.lor; fold2 Z.lxor; fold2 Z.eqb; fold2 Z.leb; fold2 Z.ltb; fold2 Z.pow;
+          repeat match goal with
+          | |- context [Z.lnot ?a] => closedZ a; let r := eval vm_compute in (Z.lnot a) in change (Z.lnot a) with r
+          | |- context [Z.opp ?a] => closedZ a; let r := eval vm_compute in (Z.opp a) in change (Z.opp a) with r
+          | |- context [Z.of_N N0] => change (Z.of_N N0) with Z0
+          | |- context [Z.of_N (Npos ?p)] => closedP p; change (Z.of_N (Npos p)) with (Zpos p)
+          | |- context [N.to_nat (Npos ?p)] =>
+            closedP p; let r := eval vm_compute in (N.to_nat (Npos p)) in change (N.to_nat (Npos p)) with r
+          end)).
+Ltac evaluate := data; ev; fold_closed.
 
-(* ------------------------------------------------------------------ lists *)
-Lemma xor_list_nil_r a : xor_list a [] = [].
-Proof. destruct a; reflexivity. Qed.
+Lemma guard_ok {A} ok (r : res A) : ok = true -> guard ok r = r.
+Proof. intros ->. reflexivity. Qed.
 
-Lemma xor_list_length : forall a b, (length a <= length b)%nat -> length (xor_list a b) = length a.
-Proof.
-  induction a as [|x a IH]; intros b H; [reflexivity|].
-  destruct b as [|y b]; [cbn in H; lia|]. cbn [xor_list length]. rewrite IH; [reflexivity|]. cbn in H. lia.
-Qed.
+Lemma nonzero_b2z c : nonzero (b2z c) = c.
+Proof. destruct c; reflexivity. Qed.
 
-Lemma xor_list_app : forall a1 b1 a2 b2, length a1 = length b1 ->
-  xor_list (a1 ++ a2) (b1 ++ b2) = xor_list a1 b1 ++ xor_list a2 b2.
-Proof.
-  induction a1 as [|x a1 IH]; intros b1 a2 b2 H.
-  - destruct b1; [reflexivity | discriminate H].
-  - destruct b1 as [|y b1]; [discriminate H|]. cbn [app xor_list]. rewrite IH; [reflexivity|].
-    cbn in H. lia.
-Qed.
+(* decide the condition of an `if` by linear arithmetic *)
+Ltac decide_if :=
+  match goal with
+  | |- context [if ?c then _ else _] =>
+    lazymatch c with
+    | true => fail | false => fail
+    | _ => first [replace c with true by lia | replace c with false by lia]
+    end
+  end.
+Ltac guards := repeat rewrite guard_ok by lia.
 
-Lemma xor_list_trunc a b1 b2 : length a = length b1 -> xor_list a (b1 ++ b2) = xor_list a b1.
-Proof.
-  intros H. rewrite <- (app_nil_r a) at 1. rewrite xor_list_app by exact H.
-  cbn [xor_list]. apply app_nil_r.
-Qed.
+(* ------------------------------------------------------------------ what the bridging needs of a state *)
+(* bytectr is a uint64_t, the call does not run past stream position 2^64, pblk has 16 bytes *)
+Definition binv (s : st) (bl : N) : Prop :=
+  bytectr s + bl < two64 /\ length (pblk s) = 16%nat.
 
-Lemma xor_list_involutive : forall a k, length a = length k -> xor_list (xor_list a k) k = a.
-Proof.
-  induction a as [|x a IH]; intros k H; [reflexivity|].
-  destruct k as [|y k]; [discriminate H|]. cbn [xor_list].
-  rewrite N.lxor_assoc, N.lxor_nilpotent, N.lxor_0_r. rewrite IH; [reflexivity|]. cbn in H. lia.
-Qed.
-
-Lemma firstn_plus {A} : forall (a b : nat) (l : list A),
-  firstn (a + b) l = firstn a l ++ firstn b (skipn a l).
-Proof.
-  induction a as [|a IH]; intros b l; [reflexivity|].
-  destruct l as [|x l]; [cbn; rewrite firstn_nil; reflexivity|].
-  cbn [Nat.add firstn skipn app]. rewrite IH. reflexivity.
-Qed.
-
-Lemma skipn_plus {A} : forall (a b : nat) (l : list A), skipn (a + b) l = skipn b (skipn a l).
-Proof.
-  induction a as [|a IH]; intros b l; [reflexivity|].
-  destruct l as [|x l]; [cbn; rewrite skipn_nil; reflexivity|]. cbn [Nat.add skipn]. apply IH.
-Qed.
-
-Lemma list_as_nths : forall (l : list N), l = map (fun j => nth j l 0) (seq 0 (length l)).
-Proof.
-  induction l as [|x l IH]; [reflexivity|].
-  cbn [length seq map nth]. f_equal. rewrite <- seq_shift, map_map. exact IH.
-Qed.
-
-Lemma N_seq_length : forall n off, length (N_seq off n) = n.
-Proof. induction n as [|n IH]; intros off; [reflexivity|]. cbn [N_seq length]. rewrite IH. reflexivity. Qed.
-
-Lemma N_seq_app : forall a b off, N_seq off (a + b) = N_seq off a ++ N_seq (off + N.of_nat a) b.
-Proof.
-  induction a as [|a IH]; intros b off.
-  - cbn [N_seq app Nat.add]. rewrite N.add_0_r. reflexivity.
-  - cbn [N_seq app Nat.add]. rewrite IH. do 3 f_equal. lia.
-Qed.
-
-Lemma N_seq_as_map : forall n off, N_seq off n = map (fun j => off + N.of_nat j) (seq 0 n).
-Proof.
-  induction n as [|n IH]; intros off; [reflexivity|].
-  cbn [N_seq seq map]. f_equal; [lia|].
-  rewrite IH, <- seq_shift, map_map. apply map_ext. intros j. lia.
-Qed.
-
-Lemma upd_length {A} : forall (l : list A) i v, length (upd l i v) = length l.
-Proof.
-  induction l as [|x l IH]; intros i v; [reflexivity|].
-  destruct i; cbn [upd length]; [reflexivity | rewrite IH; reflexivity].
-Qed.
-
-Lemma upd_firstn {A} : forall (l : list A) i v n, (n <= i)%nat -> firstn n (upd l i v) = firstn n l.
-Proof.
-  induction l as [|x l IH]; intros i v n H; [reflexivity|].
-  destruct n; [reflexivity|]. destruct i; [lia|]. cbn [upd firstn]. rewrite IH by lia. reflexivity.
-Qed.
-
-Lemma upd_nth_same {A} : forall (l : list A) i v d, (i < length l)%nat -> nth i (upd l i v) d = v.
-Proof.
-  induction l as [|x l IH]; intros i v d H; [cbn in H; lia|].
-  destruct i; [reflexivity|]. cbn [upd nth]. apply IH. cbn in H. lia.
-Qed.
-
-(* writing the last byte of a 16-byte array *)
-Lemma upd_15 : forall (l : list N) v, length l = 16%nat -> upd l 15 v = firstn 15 l ++ [v].
-Proof.
-  intros l v H.
-  do 16 (destruct l as [|? l]; [discriminate H|]). destruct l; [|discriminate H]. reflexivity.
-Qed.
-
-(* ------------------------------------------------------------------ be64 *)
-Definition hi7 (y : N) : list N := map (fun k => (y / 2 ^ (8 * k)) mod 256) [6; 5; 4; 3; 2; 1; 0].
-
-Lemma be64_split x : be64 x = hi7 (x / 256) ++ [x mod 256].
-Proof.
-  unfold be64, hi7. cbn [map app].
-  repeat (f_equal; [rewrite N.div_div by discriminate; reflexivity|]).
-  f_equal. change (2 ^ (8 * 0)) with 1. rewrite N.div_1_r. reflexivity.
-Qed.
-
-Lemma be64_length x : length (be64 x) = 8%nat.
-Proof. reflexivity. Qed.
-
-Lemma hi7_length y : length (hi7 y) = 7%nat.
-Proof. reflexivity. Qed.
-
-(* incrementing without a carry out of the low byte changes only the low byte *)
-Lemma be64_succ d : d mod 256 <> 255 -> be64 (d + 1) = firstn 7 (be64 d) ++ [d mod 256 + 1].
-Proof.
-  intros H. rewrite (be64_split d), (be64_split (d + 1)).
-  rewrite firstn_app, hi7_length. change (7 - 7)%nat with 0%nat.
-  rewrite firstn_O, app_nil_r.
-  rewrite firstn_all2 by (rewrite hi7_length; lia).
-  replace ((d + 1) / 256) with (d / 256) by lia.
-  replace ((d + 1) mod 256) with (d mod 256 + 1) by lia.
-  reflexivity.
-Qed.
-
-Lemma be64_last d : nth 7 (be64 d) 0 = d mod 256.
-Proof. rewrite be64_split. rewrite app_nth2; rewrite hi7_length; [reflexivity | lia]. Qed.
-
-Lemma firstn_app_exact {A} (a b : list A) n : length a = n -> firstn n (a ++ b) = a.
-Proof.
-  intros <-. rewrite firstn_app, Nat.sub_diag, firstn_O, app_nil_r. apply firstn_all.
-Qed.
-
-Lemma skipn_app_exact {A} (a b : list A) n : length a = n -> skipn n (a ++ b) = b.
-Proof.
-  intros <-. rewrite skipn_app, Nat.sub_diag, skipn_all. reflexivity.
-Qed.
-
-Lemma nth_app_exact {A} (a b : list A) n k d : length a = n -> nth (n + k) (a ++ b) d = nth k b d.
-Proof.
-  intros <-. rewrite app_nth2 by lia. f_equal. lia.
-Qed.
-
-(* ------------------------------------------------------------------ the keystream, bytewise *)
-Section Proofs.
+Section Bridge.
   Variable E : list N -> list N.
-  Hypothesis E_len : forall b, length (E b) = 16%nat.
-
-  Section Nonce.
-  Variable nonce : N.
-
-  Definition ks_byte (p : N) : N := nth (N.to_nat (p mod 16)) (keystream E nonce (p / 16)) 0.
-  (* the n keystream bytes from stream position off on *)
-  Definition ks_range (off : N) (n : nat) : list N := map ks_byte (N_seq off n).
-
-  Lemma ks_range_length off n : length (ks_range off n) = n.
-  Proof. unfold ks_range. rewrite map_length. apply N_seq_length. Qed.
-
-  Lemma ks_range_app off a b :
-    ks_range off (a + b) = ks_range off a ++ ks_range (off + N.of_nat a) b.
-  Proof. unfold ks_range. rewrite N_seq_app, map_app. reflexivity. Qed.
-
-  Lemma keystream_length c : length (keystream E nonce c) = 16%nat.
-  Proof. apply E_len. Qed.
-
-  Lemma keystream_as_range c : keystream E nonce c = ks_range (16 * c) 16.
-  Proof.
-    unfold ks_range. rewrite N_seq_as_map, map_map.
-    rewrite (list_as_nths (keystream E nonce c)) at 1. rewrite keystream_length.
-    apply map_ext_in. intros j Hj. apply in_seq in Hj. unfold ks_byte.
-    replace ((16 * c + N.of_nat j) / 16) with c by lia.
-    replace (N.to_nat ((16 * c + N.of_nat j) mod 16)) with j by lia.
-    reflexivity.
-  Qed.
-
-  Lemma ks_slice c m n : (m + n <= 16)%nat ->
-    firstn n (skipn m (keystream E nonce c)) = ks_range (16 * c + N.of_nat m) n.
-  Proof.
-    intros H. rewrite keystream_as_range.
-    replace 16%nat with (m + (n + (16 - m - n)))%nat at 1 by lia.
-    rewrite ks_range_app, ks_range_app.
-    rewrite skipn_app_exact by apply ks_range_length.
-    rewrite firstn_app_exact by apply ks_range_length.
-    reflexivity.
-  Qed.
-
-  Lemma keystream_blocks_as_range : forall n c,
-    flat_map (keystream E nonce) (N_seq c n) = ks_range (16 * c) (16 * n).
-  Proof.
-    induction n as [|n IH]; intros c; [reflexivity|].
-    cbn [N_seq flat_map]. rewrite IH, keystream_as_range.
-    replace (16 * S n)%nat with (16 + 16 * n)%nat by lia. rewrite ks_range_app.
-    do 2 f_equal. lia.
-  Qed.
-
-  (* the spec in bytewise form *)
-  Lemma ctr_spec_from_as_range B data :
-    ctr_spec_from E nonce B data = xor_list data (ks_range (16 * B) (length data)).
-  Proof.
-    unfold ctr_spec_from, keystream_bytes_from. rewrite keystream_blocks_as_range.
-    set (n := ((length data + 15) / 16)%nat).
-    replace (16 * n)%nat with (length data + (16 * n - length data))%nat by (subst n; lia).
-    rewrite ks_range_app. apply xor_list_trunc. symmetry. apply ks_range_length.
-  Qed.
-
-  Lemma ctr_spec_as_range data :
-    ctr_spec E nonce data = xor_list data (ks_range 0 (length data)).
-  Proof. unfold ctr_spec. rewrite ctr_spec_from_as_range. reflexivity. Qed.
-
-  Lemma ctr_spec_length data : length (ctr_spec E nonce data) = length data.
-  Proof. rewrite ctr_spec_as_range. apply xor_list_length. rewrite ks_range_length. lia. Qed.
-
-  (* ---------------------------------------------------------------- the invariant (M1) *)
-  Definition st_wf (s : st) : Prop := length (buf s) = 16%nat /\ length (pblk s) = 16%nat.
-
-  (* start = the stream position (a block boundary) at which the object was (re-)initialised:
-     0 for init2; 16*B for the harness's white-box seek.  total = the current stream position.
-     Once a block has been generated the counter block IS nonce || be64(index of the last
-     generated block); before that only pblk[15] = 0xff is known, pblk[8..14] are whatever
-     they were *)
-  Variable start : N.
-  Hypothesis start_aligned : start mod 16 = 0.
-
-  Definition pblk_ok (total : N) (p : list N) : Prop :=
-    length p = 16%nat /\ firstn 8 p = be64 nonce /\
-    (total = start -> nth 15 p 0 = 255) /\
-    (total <> start -> skipn 8 p = be64 ((total - 1) / 16)).
-
-  Definition ctr_inv (total : N) (s : st) : Prop :=
-    start <= total /\ total < two64 /\ bytectr s = total /\ length (buf s) = 16%nat /\
-    (total mod 16 <> 0 -> buf s = keystream E nonce (total / 16)) /\
-    pblk_ok total (pblk s).
-
-  Lemma ctr_inv_wf total s : ctr_inv total s -> st_wf s.
-  Proof. intros (_ & _ & _ & Hb & _ & Hp & _). split; assumption. Qed.
-
-  (* any object whose counter block is in the "just initialised" form, positioned at start *)
-  Lemma fresh_inv s :
-    st_wf s -> firstn 8 (pblk s) = be64 nonce -> nth 15 (pblk s) 0 = 255 ->
-    bytectr s = start -> start < two64 -> ctr_inv start s.
-  Proof.
-    intros [Hb Hp] Hn H15 Hc Hlt. unfold ctr_inv, pblk_ok.
-    split; [lia|]. split; [exact Hlt|]. split; [exact Hc|]. split; [exact Hb|].
-    split; [intros H; exfalso; apply H; exact start_aligned|].
-    split; [exact Hp|]. split; [exact Hn|]. split; [intros _; exact H15|].
-    intros H. exfalso. apply H. reflexivity.
-  Qed.
-
-  (* after generate the counter block is nonce || be64(block index), whatever pblk[8..14] were *)
-  Lemma generate_ok total s : ctr_inv total s -> total mod 16 = 0 ->
-    generate E s = Ok (mkst total (keystream E nonce (total / 16)) (be64 nonce ++ be64 (total / 16))).
-  Proof.
-    intros (Hle & Hlt & Hb & Hbuf & Hks & Hlen & Hn & H0 & Hpos) Hm.
-    unfold generate, upd_byte. rewrite Hb.
-    replace (total mod 16 =? 0) with true by (symmetry; apply N.eqb_eq; exact Hm). cbn [negb].
-    rewrite upd_15 by exact Hlen.
-    assert (Hf8 : forall v, firstn 8 (firstn 15 (pblk s) ++ [v]) = be64 nonce).
-    { intros v. rewrite firstn_app, firstn_firstn, firstn_length, Hlen. cbn [Nat.min Nat.sub firstn].
-      rewrite app_nil_r. exact Hn. }
-    destruct (N.eq_dec total start) as [Hz | Hnz].
-    - rewrite (H0 Hz). change ((255 + 1) mod 256) with 0. change (0 =? 0) with true. cbv iota.
-      rewrite Hf8. reflexivity.
-    - specialize (Hpos Hnz). set (d := (total - 1) / 16) in *.
-      assert (Hp : pblk s = be64 nonce ++ be64 d).
-      { rewrite <- (firstn_skipn 8 (pblk s)). rewrite Hn, Hpos. reflexivity. }
-      assert (Hd : total / 16 = d + 1) by (subst d; lia).
-      assert (H15 : nth 15 (pblk s) 0 = d mod 256).
-      { rewrite Hp. change 15%nat with (8 + 7)%nat. rewrite nth_app_exact by apply be64_length.
-        apply be64_last. }
-      rewrite H15.
-      destruct (N.eq_dec (d mod 256) 255) as [Hw | Hnw].
-      + rewrite Hw. change ((255 + 1) mod 256) with 0. change (0 =? 0) with true. cbv iota.
-        rewrite Hf8. reflexivity.
-      + replace ((d mod 256 + 1) mod 256) with (d mod 256 + 1) by lia.
-        replace (d mod 256 + 1 =? 0) with false by (symmetry; apply N.eqb_neq; lia). cbv iota.
-        assert (Hnew : firstn 15 (pblk s) ++ [d mod 256 + 1] = be64 nonce ++ be64 (total / 16)).
-        { rewrite Hd, be64_succ by exact Hnw. rewrite Hp.
-          change 15%nat with (8 + 7)%nat. rewrite firstn_plus.
-          rewrite firstn_app_exact by apply be64_length.
-          rewrite skipn_app_exact by apply be64_length.
-          rewrite <- app_assoc. reflexivity. }
-        rewrite Hnew. reflexivity.
-  Qed.
 
   (* ---------------------------------------------------------------- cipherblock_use *)
-  Lemma use_spec s inp buflen (nbytes m c : N) :
-    buf s = keystream E nonce c -> m + nbytes <= 16 ->
-    (N.to_nat nbytes <= length inp)%nat ->
-    use s inp buflen nbytes m =
-      (mkst ((bytectr s + nbytes) mod two64) (buf s) (pblk s),
-       xor_list (firstn (N.to_nat nbytes) inp) (ks_range (16 * c + m) (N.to_nat nbytes)),
-       skipn (N.to_nat nbytes) inp, buflen - nbytes).
+  Lemma use_eq s inp bl n m : n <= bl -> bl < two64 ->
+    use s inp bl n m = Ok (Ref.use s inp bl n m).
   Proof.
-    intros Hbuf Hle Hin. unfold use. do 3 f_equal.
-    rewrite <- (firstn_skipn (N.to_nat nbytes) (skipn (N.to_nat m) (buf s))).
-    rewrite xor_list_trunc.
-    - rewrite Hbuf, ks_slice by lia. do 2 f_equal. lia.
-    - rewrite !firstn_length, skipn_length, Hbuf, keystream_length. lia.
+    intros H1 H2. unfold use, Ref.use, two64 in *. evaluate.
+    guards. repeat f_equal; lia.
   Qed.
 
-  Lemma glue inp off k : (k <= length inp)%nat ->
-    xor_list (firstn k inp) (ks_range off k) ++
-    xor_list (skipn k inp) (ks_range (off + N.of_nat k) (length inp - k)) =
-    xor_list inp (ks_range off (length inp)).
+  Lemma Ref_use_binv s inp bl n m : n <= bl -> binv s bl ->
+    let '(s2, _, _, bl2) := Ref.use s inp bl n m in binv s2 bl2.
   Proof.
-    intros H.
-    replace (ks_range off (length inp))
-      with (ks_range off k ++ ks_range (off + N.of_nat k) (length inp - k)).
-    2:{ rewrite <- ks_range_app. f_equal. lia. }
-    rewrite <- xor_list_app by (rewrite firstn_length, ks_range_length; lia).
-    rewrite firstn_skipn. reflexivity.
+    intros Hn [Hb Hp]. unfold Ref.use, binv, two64 in *. cbn [bytectr pblk]. split; [lia | exact Hp].
+  Qed.
+
+  (* ---------------------------------------------------------------- cipherblock_generate *)
+  Lemma generate_eq s : bytectr s < two64 -> length (pblk s) = 16%nat ->
+    generate E s = Ref.generate E s.
+  Proof.
+    intros Hb Hl. unfold generate, Ref.generate, two64 in *.
+    assert (Hsk : forall x, skipn 16 (upd_byte (pblk s) 15 x) = []).
+    { intros x. apply skipn_all2. unfold upd_byte. rewrite upd_length. lia. }
+    destruct ((nth 15 (pblk s) 0 + 1) mod 256 =? 0) eqn:Hw;
+      destruct (bytectr s mod 16 =? 0) eqn:Hm; cbn [negb];
+      evaluate; rewrite ?nonzero_b2z; repeat decide_if; ev; guards; try reflexivity.
+    - rewrite Hsk, app_nil_r. repeat f_equal; lia.
+    - repeat f_equal; lia.
+  Qed.
+
+  Lemma Ref_generate_binv s s1 bl : Ref.generate E s = Ok s1 -> binv s bl -> binv s1 bl.
+  Proof.
+    unfold Ref.generate, binv. intros H [Hb Hp].
+    destruct (negb (bytectr s mod 16 =? 0)); [discriminate|]. apply (f_equal (fun r => match r with Ok x => x | _ => s1 end)) in H. subst s1.
+    cbn [bytectr pblk]. split; [exact Hb|].
+    assert (Hu : forall x, length (upd_byte (pblk s) 15 x) = 16%nat)
+      by (intros x; unfold upd_byte; rewrite upd_length; exact Hp).
+    destruct ((nth 15 (pblk s) 0 + 1) mod 256 =? 0); [|apply Hu].
+    rewrite app_length, firstn_length, Hu. reflexivity.
   Qed.
 
   (* ---------------------------------------------------------------- pre_wholeblock *)
-  Lemma pre_whole_spec total s inp :
-    ctr_inv total s -> total + N.of_nat (length inp) < two64 ->
-    exists k s1 done,
-      pre_whole s inp (N.of_nat (length inp)) =
-        (s1, xor_list (firstn k inp) (ks_range total k), skipn k inp,
-         N.of_nat (length inp) - N.of_nat k, done) /\
-      (k <= length inp)%nat /\ ctr_inv (total + N.of_nat k) s1 /\
-      (done = true -> k = length inp) /\
-      (done = false -> (total + N.of_nat k) mod 16 = 0).
+  Lemma pre_whole_eq s inp bl : bytectr s + bl < two64 ->
+    pre_whole s inp bl = Ok (Ref.pre_whole s inp bl).
   Proof.
-    intros Hinv Hbound. pose proof Hinv as (Hle & Hlt & Hb & Hbuf & Hks & Hlen & Hn & H0 & Hpos).
-    unfold pre_whole. rewrite Hb.
-    destruct (total mod 16 =? 0) eqn:Hm; cbn [negb].
-    - apply N.eqb_eq in Hm. exists 0%nat, s, false.
-      cbn [firstn skipn xor_list N.of_nat]. rewrite N.sub_0_r, N.add_0_r.
-      splits; try reflexivity; try assumption; try lia; try (intros; discriminate).
-    - apply N.eqb_neq in Hm. specialize (Hks Hm).
-      assert (Hnz : total <> start) by (intros ->; apply Hm; exact start_aligned).
-      specialize (Hpos Hnz).
-      assert (Htot : total = 16 * (total / 16) + total mod 16) by lia.
-      destruct (total mod 16 + N.of_nat (length inp) <=? 16) eqn:Hfit.
-      + (* the request ends inside the current keystream block *)
-        apply N.leb_le in Hfit.
-        rewrite (use_spec s inp _ _ _ (total / 16) Hks) by lia.
-        rewrite Nat2N.id. rewrite <- Htot, Hb.
-        exists (length inp). eexists. exists true.
-        split; [reflexivity|]. split; [lia|]. split; [|split; [reflexivity | intros; discriminate]].
-        unfold ctr_inv, pblk_ok. cbn [bytectr buf pblk].
-        rewrite (N.mod_small _ two64) by exact Hbound.
-        split; [lia|]. split; [exact Hbound|]. split; [reflexivity|]. split; [exact Hbuf|].
-        split; [intros Hm'; rewrite Hks; f_equal; lia|].
-        split; [exact Hlen|]. split; [exact Hn|]. split; [intros; lia|].
-        intros _. rewrite Hpos. f_equal. lia.
-      + (* finish the current keystream block, more to do *)
-        apply N.leb_gt in Hfit.
-        rewrite (use_spec s inp _ _ _ (total / 16) Hks) by lia.
-        rewrite <- Htot, Hb.
-        exists (N.to_nat (16 - total mod 16)). eexists. exists false.
-        rewrite N2Nat.id.
-        split; [reflexivity|]. split; [lia|]. split; [|split; [intros; discriminate | intros _; lia]].
-        unfold ctr_inv, pblk_ok. cbn [bytectr buf pblk].
-        rewrite (N.mod_small _ two64) by lia.
-        split; [lia|]. split; [lia|]. split; [reflexivity|]. split; [exact Hbuf|].
-        split; [intros Hm'; exfalso; apply Hm'; lia|].
-        split; [exact Hlen|]. split; [exact Hn|]. split; [intros; lia|].
-        intros _. rewrite Hpos. f_equal. lia.
-  Qed.
-
-  (* the state after generate + use(n, 0) *)
-  Lemma after_block total n :
-    start <= total -> total mod 16 = 0 -> 1 <= n <= 16 -> total + n < two64 ->
-    ctr_inv (total + n)
-      (mkst ((total + n) mod two64) (keystream E nonce (total / 16)) (be64 nonce ++ be64 (total / 16))).
-  Proof.
-    intros Hle Hm Hn Hb. unfold ctr_inv, pblk_ok. cbn [bytectr buf pblk].
-    rewrite (N.mod_small _ two64) by exact Hb.
-    split; [lia|]. split; [exact Hb|]. split; [reflexivity|]. split; [apply keystream_length|].
-    split; [intros Hm2; f_equal; lia|].
-    split; [rewrite app_length, !be64_length; reflexivity|].
-    split; [apply firstn_app_exact; apply be64_length|].
-    split; [intros; lia|].
-    intros _. rewrite skipn_app_exact by apply be64_length. f_equal. lia.
-  Qed.
-
-  (* ---------------------------------------------------------------- the whole-block loop *)
-  Definition mid_spec (W : st -> list N -> N -> res (st * list N * list N * N))
-             (total : N) (s : st) (inp : list N) : Prop :=
-    exists k s1,
-      W s inp (N.of_nat (length inp)) =
-        Ok (s1, xor_list (firstn k inp) (ks_range total k), skipn k inp,
-            N.of_nat (length inp) - N.of_nat k) /\
-      (k <= length inp)%nat /\ (length inp - k < 16)%nat /\
-      ctr_inv (total + N.of_nat k) s1 /\ (total + N.of_nat k) mod 16 = 0.
-
-  Lemma whole_spec : forall fuel total s inp,
-    ctr_inv total s -> total mod 16 = 0 -> total + N.of_nat (length inp) < two64 ->
-    (length inp <= 16 * fuel)%nat ->
-    mid_spec (whole E fuel) total s inp.
-  Proof.
-    induction fuel as [|fuel IH]; intros total s inp Hinv Hm Hbound Hfuel; unfold mid_spec.
-    - destruct inp; [|cbn in Hfuel; lia]. exists 0%nat, s. cbn.
-      rewrite N.add_0_r. splits; try reflexivity; try assumption; lia.
-    - cbn [whole].
-      destruct (16 <=? N.of_nat (length inp)) eqn:Hge.
-      + apply N.leb_le in Hge.
-        rewrite (generate_ok total s Hinv Hm). cbn [bind].
-        rewrite (use_spec _ inp _ 16 0 (total / 16)) by (cbn [buf]; try reflexivity; lia).
-        cbn [bytectr buf pblk]. change (N.to_nat 16) with 16%nat.
-        replace (16 * (total / 16) + 0) with total by lia.
-        assert (Hinv2 := after_block total 16 ltac:(destruct Hinv; assumption) Hm ltac:(lia) ltac:(lia)).
-        replace (N.of_nat (length inp) - 16) with (N.of_nat (length (skipn 16 inp)))
-          by (rewrite skipn_length; lia).
-        destruct (IH (total + 16) _ (skipn 16 inp) Hinv2) as (k & s1 & Hw & Hk & Hrest & Hinv3 & Hm3).
-        { lia. } { rewrite skipn_length. lia. } { rewrite skipn_length. lia. }
-        rewrite Hw. cbn [bind].
-        rewrite skipn_length in Hk, Hrest.
-        exists (16 + k)%nat, s1.
-        split.
-        * rewrite firstn_plus, skipn_plus, ks_range_app.
-          rewrite xor_list_app by (rewrite firstn_length, ks_range_length; lia).
-          change (N.of_nat 16) with 16.
-          do 2 f_equal. rewrite skipn_length. lia.
-        * replace (total + N.of_nat (16 + k)) with (total + 16 + N.of_nat k) by lia.
-          splits; try reflexivity; try assumption; lia.
-      + apply N.leb_gt in Hge. exists 0%nat, s. cbn [firstn skipn xor_list N.of_nat].
-        rewrite N.sub_0_r, N.add_0_r. splits; try reflexivity; try assumption; lia.
-  Qed.
-
-  (* ---------------------------------------------------------------- post_wholeblock *)
-  Lemma post_whole_spec total s inp :
-    ctr_inv total s -> total mod 16 = 0 -> (length inp < 16)%nat ->
-    total + N.of_nat (length inp) < two64 ->
-    exists s1, post_whole E s inp (N.of_nat (length inp)) =
-                 Ok (s1, xor_list inp (ks_range total (length inp))) /\
-               ctr_inv (total + N.of_nat (length inp)) s1.
-  Proof.
-    intros Hinv Hm Hlen Hbound. unfold post_whole.
-    destruct (0 <? N.of_nat (length inp)) eqn:Hpos.
-    - apply N.ltb_lt in Hpos.
-      rewrite (generate_ok total s Hinv Hm). cbn [bind].
-      rewrite (use_spec _ inp _ _ 0 (total / 16)) by (cbn [buf]; try reflexivity; lia).
-      cbn [bytectr buf pblk]. rewrite Nat2N.id, firstn_all.
-      replace (16 * (total / 16) + 0) with total by lia.
-      eexists. split; [reflexivity|]. apply after_block; try lia. destruct Hinv; assumption.
-    - apply N.ltb_ge in Hpos. destruct inp; [|cbn in Hpos; lia].
-      exists s. cbn. rewrite N.add_0_r. split; [reflexivity | exact Hinv].
-  Qed.
-
-  (* ---------------------------------------------------------------- a stream call, any middle step *)
-  Definition stream_with (W : st -> list N -> N -> res (st * list N * list N * N))
-             (s : st) (inp : list N) : res (st * list N) :=
-    let buflen := N.of_nat (length inp) in
-    let '(s1, o1, rest, bl, done) := pre_whole s inp buflen in
-    if done then Ok (s1, o1) else
-    bind (W s1 rest bl) (fun '(s2, o2, rest2, bl2) =>
-    bind (post_whole E s2 rest2 bl2) (fun '(s3, o3) =>
-    Ok (s3, o1 ++ o2 ++ o3))).
-
-  Lemma stream_with_spec W total s inp :
-    (forall t s' inp', ctr_inv t s' -> t mod 16 = 0 -> t + N.of_nat (length inp') < two64 ->
-                       (length inp' <= length inp)%nat -> mid_spec W t s' inp') ->
-    ctr_inv total s -> total + N.of_nat (length inp) < two64 ->
-    exists s', stream_with W s inp = Ok (s', xor_list inp (ks_range total (length inp))) /\
-               ctr_inv (total + N.of_nat (length inp)) s'.
-  Proof.
-    intros HW Hinv Hbound. unfold stream_with.
-    destruct (pre_whole_spec total s inp Hinv Hbound) as (k1 & s1 & done & Hpre & Hk1 & Hinv1 & Hd & Hnd).
-    rewrite Hpre. destruct done.
-    - specialize (Hd eq_refl). subst k1. rewrite firstn_all. exists s1. split; [reflexivity | exact Hinv1].
-    - specialize (Hnd eq_refl).
-      set (rest := skipn k1 inp).
-      assert (Hrl : length rest = (length inp - k1)%nat) by (subst rest; apply skipn_length).
-      replace (N.of_nat (length inp) - N.of_nat k1) with (N.of_nat (length rest)) by lia.
-      destruct (HW (total + N.of_nat k1) s1 rest Hinv1 Hnd) as (k2 & s2 & Hw & Hk2 & Hr2 & Hinv2 & Hm2);
-        [lia | lia |].
-      rewrite Hw. cbn [bind].
-      set (rest2 := skipn k2 rest).
-      assert (Hrl2 : length rest2 = (length rest - k2)%nat) by (subst rest2; apply skipn_length).
-      replace (N.of_nat (length rest) - N.of_nat k2) with (N.of_nat (length rest2)) by lia.
-      destruct (post_whole_spec (total + N.of_nat k1 + N.of_nat k2) s2 rest2 Hinv2 Hm2) as (s3 & Hpost & Hinv3);
-        [lia | lia |].
-      rewrite Hpost. cbn [bind].
-      exists s3. split.
-      + f_equal. f_equal.
-        rewrite <- (glue inp total k1 Hk1). f_equal. fold rest.
-        rewrite <- Hrl. rewrite <- (glue rest _ k2 Hk2). f_equal. fold rest2.
-        rewrite <- Hrl2. reflexivity.
-      + replace (total + N.of_nat (length inp)) with (total + N.of_nat k1 + N.of_nat k2 + N.of_nat (length rest2)) by lia.
-        exact Hinv3.
-  Qed.
-
-  (* ---------------------------------------------------------------- the portable path *)
-  Lemma stream_is_stream_with s inp : stream E s inp = stream_with (whole E (length inp)) s inp.
-  Proof. reflexivity. Qed.
-
-  Theorem stream_spec total s inp :
-    ctr_inv total s -> total + N.of_nat (length inp) < two64 ->
-    exists s', stream E s inp = Ok (s', xor_list inp (ks_range total (length inp))) /\
-               ctr_inv (total + N.of_nat (length inp)) s'.
-  Proof.
-    intros Hinv Hbound. rewrite stream_is_stream_with.
-    apply stream_with_spec; [|exact Hinv | exact Hbound].
-    intros t s' inp' Hi Hm Hb Hl. apply whole_spec; try assumption. lia.
-  Qed.
-
-  (* ---------------------------------------------------------------- the AES-NI bulk path *)
-  Lemma bulk_block p c :
-    (8 <= length p)%nat -> firstn 8 p = be64 nonce ->
-    E (mm_unpacklo_epi64 (load_si64 p) (load_si64 (be64 c))) = ks_range (16 * c) 16.
-  Proof.
-    intros Hl Hp. rewrite <- keystream_as_range. unfold keystream, mm_unpacklo_epi64, load_si64.
-    rewrite (firstn_app_exact (firstn 8 p)) by (rewrite firstn_length; lia).
-    rewrite (firstn_app_exact (firstn 8 (be64 c))) by reflexivity.
-    change (firstn 8 (be64 c)) with (be64 c).
-    rewrite Hp. reflexivity.
-  Qed.
-
-  Lemma bulk_spec p : (8 <= length p)%nat -> firstn 8 p = be64 nonce ->
-    forall n c inp,
-      c + N.of_nat n + 1 < two64 -> (16 * S n <= length inp)%nat ->
-      bulk E n (load_si64 p) c inp =
-        (xor_list (firstn (16 * S n) inp) (ks_range (16 * c) (16 * S n)),
-         skipn (16 * S n) inp, c + N.of_nat n + 1, be64 (c + N.of_nat n)).
-  Proof.
-    intros Hl Hp. induction n as [|n IH]; intros c inp Hc Hinp.
-    - cbn [bulk]. rewrite bulk_block by assumption.
-      rewrite (N.mod_small _ two64) by lia.
-      change (16 * 1)%nat with 16%nat. change (N.of_nat 0) with 0. rewrite !N.add_0_r. reflexivity.
-    - cbn [bulk]. rewrite bulk_block by assumption.
-      rewrite (N.mod_small _ two64) by lia.
-      rewrite IH by (try rewrite skipn_length; lia).
-      replace (16 * S (S n))%nat with (16 + 16 * S n)%nat by lia.
-      rewrite firstn_plus, skipn_plus, ks_range_app.
-      rewrite xor_list_app by (rewrite firstn_length, ks_range_length; lia).
-      change (N.of_nat 16) with 16.
-      replace (16 * (c + 1)) with (16 * c + 16) by lia.
-      replace (c + 1 + N.of_nat n) with (c + N.of_nat (S n)) by lia.
-      reflexivity.
-  Qed.
-
-  Definition mid_aesni (s : st) (inp : list N) (bl : N) : res (st * list N * list N * N) :=
-    if 16 <=? bl then wholeblocks_aesni E s inp bl else Ok (s, [], inp, bl).
-
-  Lemma stream_aesni_is_stream_with s inp : stream_aesni E s inp = stream_with mid_aesni s inp.
-  Proof. reflexivity. Qed.
-
-  Lemma mid_aesni_spec total s inp :
-    ctr_inv total s -> total mod 16 = 0 -> total + N.of_nat (length inp) < two64 ->
-    mid_spec mid_aesni total s inp.
-  Proof.
-    intros Hinv Hm Hbound. pose proof Hinv as (Hle & Hlt & Hb & Hbuf & Hks & Hlen & Hn & H0 & Hpos).
-    unfold mid_spec, mid_aesni.
-    destruct (16 <=? N.of_nat (length inp)) eqn:Hge.
-    - apply N.leb_le in Hge. unfold wholeblocks_aesni. rewrite Hb.
-      destruct (N.to_nat (N.of_nat (length inp) / 16)) as [|n] eqn:Hnb; [lia|].
-      rewrite (bulk_spec (pblk s)) by (try assumption; lia).
-      replace (16 * (total / 16)) with total by lia.
-      exists (16 * S n)%nat. eexists. split; [|split; [lia | split; [lia | split; [|lia]]]].
-      + replace (16 * (N.of_nat (length inp) / 16)) with (N.of_nat (16 * S n)) by lia.
-        reflexivity.
-      + unfold ctr_inv, pblk_ok. cbn [bytectr buf pblk].
-        rewrite (N.mod_small _ two64) by lia.
-        split; [lia|]. split; [lia|]. split; [reflexivity|]. split; [exact Hbuf|].
-        split; [intros Hm'; exfalso; apply Hm'; lia|].
-        split; [rewrite app_length, firstn_length, be64_length; lia|].
-        split; [rewrite firstn_app_exact by (rewrite firstn_length; lia); exact Hn|].
-        split; [intros; lia|].
-        intros _. rewrite skipn_app_exact by (rewrite firstn_length; lia). f_equal. lia.
-    - apply N.leb_gt in Hge. exists 0%nat, s. cbn [firstn skipn xor_list N.of_nat].
-      rewrite N.sub_0_r, N.add_0_r. splits; try reflexivity; try assumption; lia.
-  Qed.
-
-  Theorem stream_aesni_spec total s inp :
-    ctr_inv total s -> total + N.of_nat (length inp) < two64 ->
-    exists s', stream_aesni E s inp = Ok (s', xor_list inp (ks_range total (length inp))) /\
-               ctr_inv (total + N.of_nat (length inp)) s'.
-  Proof.
-    intros Hinv Hbound. rewrite stream_aesni_is_stream_with.
-    apply stream_with_spec; [|exact Hinv | exact Hbound].
-    intros t s' inp' Hi Hm Hb Hl. apply mid_aesni_spec; assumption.
-  Qed.
-
-  (* M1, preservation: crypto_aesctr_stream in either build configuration *)
-  Theorem stream_cfg_spec hw total s inp :
-    ctr_inv total s -> total + N.of_nat (length inp) < two64 ->
-    exists s', stream_cfg E hw s inp = Ok (s', xor_list inp (ks_range total (length inp))) /\
-               ctr_inv (total + N.of_nat (length inp)) s'.
-  Proof.
-    intros Hinv Hbound. unfold stream_cfg.
-    destruct ((16 <=? N.of_nat (length inp)) && hw);
-      [apply stream_aesni_spec | apply stream_spec]; assumption.
-  Qed.
-
-  (* the invariant determines everything a later call can observe *)
-  Definition st_obs_eq (s1 s2 : st) : Prop :=
-    bytectr s1 = bytectr s2 /\ pblk s1 = pblk s2 /\
-    (bytectr s1 mod 16 <> 0 -> buf s1 = buf s2).
-
-  Lemma ctr_inv_obs total s1 s2 :
-    total <> start -> ctr_inv total s1 -> ctr_inv total s2 -> st_obs_eq s1 s2.
-  Proof.
-    intros Hnz (_ & _ & Hb1 & _ & Hk1 & _ & Hn1 & _ & Hp1) (_ & _ & Hb2 & _ & Hk2 & _ & Hn2 & _ & Hp2).
-    unfold st_obs_eq. rewrite Hb1, Hb2. split; [reflexivity|]. split.
-    - rewrite <- (firstn_skipn 8 (pblk s1)), <- (firstn_skipn 8 (pblk s2)).
-      rewrite Hn1, Hn2, (Hp1 Hnz), (Hp2 Hnz). reflexivity.
-    - intros Hm. rewrite (Hk1 Hm), (Hk2 Hm). reflexivity.
-  Qed.
-
-  (* C03-M2: from a state satisfying the invariant, the AES-NI path and the portable path write
-     the same bytes and leave states that no later call can tell apart (the AES-NI bulk path does
-     not refresh buf, which is dead at a block boundary) *)
-  Theorem stream_aesni_eq_stream total s inp :
-    ctr_inv total s -> total + N.of_nat (length inp) < two64 ->
-    exists s1 s2 out,
-      stream_aesni E s inp = Ok (s1, out) /\ stream E s inp = Ok (s2, out) /\
-      st_obs_eq s1 s2 /\
-      ctr_inv (total + N.of_nat (length inp)) s1 /\ ctr_inv (total + N.of_nat (length inp)) s2.
-  Proof.
-    intros Hinv Hbound.
-    destruct (stream_aesni_spec total s inp Hinv Hbound) as (s1 & H1 & Hi1).
-    destruct (stream_spec total s inp Hinv Hbound) as (s2 & H2 & Hi2).
-    exists s1, s2, (xor_list inp (ks_range total (length inp))).
-    split; [exact H1|]. split; [exact H2|]. split; [|split; assumption].
-    destruct (N.eq_dec (total + N.of_nat (length inp)) start) as [Hz | Hnz].
-    - (* no byte since (re-)initialisation and nothing to do: both return the state unchanged *)
-      destruct Hinv as (Hle & _ & Hb & _).
-      assert (Hts : total = start) by lia. rewrite Hts in *. clear Hts.
-      destruct inp; [|cbn [length] in Hz; lia].
-      destruct s as [b bf p]. cbn [bytectr] in Hb. rewrite Hb in *. clear Hb.
-      assert (Ha : stream_aesni E (mkst start bf p) [] = Ok (mkst start bf p, [])).
-      { unfold stream_aesni, pre_whole, post_whole. cbn [bytectr length N.of_nat].
-        rewrite start_aligned. reflexivity. }
-      assert (Hp : stream E (mkst start bf p) [] = Ok (mkst start bf p, [])).
-      { unfold stream, pre_whole, post_whole. cbn [bytectr length N.of_nat whole].
-        rewrite start_aligned. reflexivity. }
-      rewrite Ha in H1. rewrite Hp in H2. inversion H1. inversion H2.
-      unfold st_obs_eq. splits; reflexivity.
-    - apply (ctr_inv_obs (total + N.of_nat (length inp))); assumption.
-  Qed.
-
-  (* ---------------------------------------------------------------- sequences of calls (M2) *)
-  Lemma stream_all_spec hw : forall chunks total s,
-    ctr_inv total s -> total + N.of_nat (length (concat chunks)) < two64 ->
-    exists s' outs,
-      stream_all E hw s chunks = Ok (s', outs) /\
-      concat outs = xor_list (concat chunks) (ks_range total (length (concat chunks))) /\
-      map (@length N) outs = map (@length N) chunks /\
-      ctr_inv (total + N.of_nat (length (concat chunks))) s'.
-  Proof.
-    induction chunks as [|c chunks IH]; intros total s Hinv Hbound.
-    - exists s, []. cbn. rewrite N.add_0_r. splits; try reflexivity. exact Hinv.
-    - cbn [concat] in *. rewrite app_length in *.
-      destruct (stream_cfg_spec hw total s c Hinv) as (s1 & Hs1 & Hinv1); [lia|].
-      destruct (IH (total + N.of_nat (length c)) s1 Hinv1) as (s2 & outs & Hs2 & Hcat & Hlens & Hinv2); [lia|].
-      cbn [stream_all]. rewrite Hs1. cbn [bind]. rewrite Hs2. cbn [bind].
-      eexists. eexists. split; [reflexivity|].
-      split; [|split].
-      + cbn [concat]. rewrite Hcat, ks_range_app.
-        rewrite xor_list_app by (rewrite ks_range_length; reflexivity). reflexivity.
-      + cbn [map]. rewrite Hlens. f_equal. apply xor_list_length. rewrite ks_range_length. lia.
-      + replace (total + N.of_nat (length c + length (concat chunks)))
-          with (total + N.of_nat (length c) + N.of_nat (length (concat chunks))) by lia.
-        exact Hinv2.
-  Qed.
-  End Nonce.
-
-  (* M1, establishment: init2 from ANY prior contents of the object (pblk[8..14] keep them) *)
-  Lemma init2_fresh nonce s : st_wf s ->
-    let s' := init2 15 255 nonce s in
-    st_wf s' /\ firstn 8 (pblk s') = be64 nonce /\ nth 15 (pblk s') 0 = 255 /\ bytectr s' = 0.
-  Proof.
-    intros [Hb Hp]. unfold init2, st_wf, upd_byte. cbn [bytectr buf pblk].
-    change (N.to_nat 15) with 15%nat.
-    assert (Hl : length (be64 nonce ++ skipn 8 (pblk s)) = 16%nat).
-    { rewrite app_length, skipn_length, be64_length, Hp. reflexivity. }
-    split; [split; [exact Hb | rewrite upd_length; exact Hl]|].
-    split; [rewrite upd_firstn by lia; apply firstn_app_exact; apply be64_length|].
-    split; [apply upd_nth_same; rewrite Hl; lia | reflexivity].
-  Qed.
-
-  Lemma init2_inv nonce s : st_wf s -> ctr_inv nonce 0 0 (init2 15 255 nonce s).
-  Proof.
-    intros Hwf. destruct (init2_fresh nonce s Hwf) as (Hwf' & Hn & H15 & Hc).
-    apply fresh_inv; try assumption; reflexivity.
-  Qed.
-
-  (* the harness's white-box positioning at block B right after init2 *)
-  Lemma seek_inv nonce B s : st_wf s -> 16 * B < two64 ->
-    ctr_inv nonce (16 * B) (16 * B) (seek (16 * B) (init2 15 255 nonce s)).
-  Proof.
-    intros Hwf Hlt. destruct (init2_fresh nonce s Hwf) as (Hwf' & Hn & H15 & Hc).
-    apply fresh_inv; try assumption.
-    - lia.
-    - unfold seek. cbn [bytectr]. apply N.mod_small. exact Hlt.
-  Qed.
-
-  (* M2: for every nonce, every prior contents of the stream object and every sequence of calls,
-     the bytes written are ctr_spec of the concatenated input (and each call writes as many bytes
-     as it was given), in either build configuration *)
-  Theorem ctr_stream_correct : forall hw nonce any chunks,
-    st_wf any -> N.of_nat (length (concat chunks)) < two64 ->
-    exists s' outs,
-      stream_all E hw (init2 15 255 nonce any) chunks = Ok (s', outs) /\
-      concat outs = ctr_spec E nonce (concat chunks) /\
-      map (@length N) outs = map (@length N) chunks.
-  Proof.
-    intros hw nonce any chunks Hwf Hbound.
-    destruct (stream_all_spec nonce 0 eq_refl hw chunks 0 (init2 15 255 nonce any) (init2_inv nonce any Hwf))
-      as (s' & outs & Hs & Hcat & Hlens & _); [lia|].
-    exists s', outs. split; [exact Hs|]. split; [|exact Hlens].
-    rewrite Hcat. symmetry. apply ctr_spec_as_range.
-  Qed.
-
-  (* the same from a stream positioned at block B by the harness's white-box seek: the bytes are
-     the spec's keystream from block B on (this is what the seek cases of the correspondence run
-     are compared with) *)
-  Theorem ctr_seek_stream_correct : forall hw nonce B any chunks,
-    st_wf any -> 16 * B + N.of_nat (length (concat chunks)) < two64 ->
-    exists s' outs,
-      stream_all E hw (seek (16 * B) (init2 15 255 nonce any)) chunks = Ok (s', outs) /\
-      concat outs = ctr_spec_from E nonce B (concat chunks) /\
-      map (@length N) outs = map (@length N) chunks.
-  Proof.
-    intros hw nonce B any chunks Hwf Hbound.
-    assert (Hal : (16 * B) mod 16 = 0) by lia.
-    destruct (stream_all_spec nonce (16 * B) Hal hw chunks (16 * B) _ (seek_inv nonce B any Hwf ltac:(lia)))
-      as (s' & outs & Hs & Hcat & Hlens & _); [lia|].
-    exists s', outs. split; [exact Hs|]. split; [|exact Hlens].
-    rewrite Hcat. symmetry. apply ctr_spec_from_as_range.
-  Qed.
-
-  (* how the data is cut into calls does not matter *)
-  Corollary ctr_partition_independent : forall hw1 hw2 nonce any1 any2 chunks1 chunks2,
-    st_wf any1 -> st_wf any2 -> concat chunks1 = concat chunks2 ->
-    N.of_nat (length (concat chunks1)) < two64 ->
-    exists s1 outs1 s2 outs2,
-      stream_all E hw1 (init2 15 255 nonce any1) chunks1 = Ok (s1, outs1) /\
-      stream_all E hw2 (init2 15 255 nonce any2) chunks2 = Ok (s2, outs2) /\
-      concat outs1 = concat outs2.
-  Proof.
-    intros hw1 hw2 nonce any1 any2 chunks1 chunks2 Hw1 Hw2 Hcat Hbound.
-    destruct (ctr_stream_correct hw1 nonce any1 chunks1 Hw1 Hbound) as (s1 & o1 & H1 & Hc1 & _).
-    rewrite Hcat in Hbound.
-    destruct (ctr_stream_correct hw2 nonce any2 chunks2 Hw2 Hbound) as (s2 & o2 & H2 & Hc2 & _).
-    exists s1, o1, s2, o2. split; [exact H1|]. split; [exact H2|]. rewrite Hc1, Hc2, Hcat. reflexivity.
-  Qed.
-
-  (* encrypting twice (fresh init with the same nonce, any partitions) restores the input *)
-  Lemma ctr_spec_involutive nonce data : ctr_spec E nonce (ctr_spec E nonce data) = data.
-  Proof.
-    rewrite (ctr_spec_as_range nonce (ctr_spec E nonce data)), ctr_spec_length.
-    rewrite ctr_spec_as_range. apply xor_list_involutive. rewrite ks_range_length. reflexivity.
-  Qed.
-
-  Corollary ctr_involutive : forall hw1 hw2 nonce any1 any2 chunks1 chunks2 s1 outs1,
-    st_wf any1 -> st_wf any2 -> N.of_nat (length (concat chunks1)) < two64 ->
-    stream_all E hw1 (init2 15 255 nonce any1) chunks1 = Ok (s1, outs1) ->
-    concat chunks2 = concat outs1 ->
-    exists s2 outs2,
-      stream_all E hw2 (init2 15 255 nonce any2) chunks2 = Ok (s2, outs2) /\
-      concat outs2 = concat chunks1.
-  Proof.
-    intros hw1 hw2 nonce any1 any2 chunks1 chunks2 s1 outs1 Hw1 Hw2 Hbound Hrun Hcat.
-    destruct (ctr_stream_correct hw1 nonce any1 chunks1 Hw1 Hbound) as (s1' & o1 & H1 & Hc1 & _).
-    rewrite Hrun in H1. inversion H1; subst s1' o1.
-    assert (Hb2 : N.of_nat (length (concat chunks2)) < two64).
-    { rewrite Hcat, Hc1, ctr_spec_length. exact Hbound. }
-    destruct (ctr_stream_correct hw2 nonce any2 chunks2 Hw2 Hb2) as (s2 & o2 & H2 & Hc2 & _).
-    exists s2, o2. split; [exact H2|]. rewrite Hc2, Hcat, Hc1. apply ctr_spec_involutive.
-  Qed.
-End Proofs.
-
-(* re-initialising a used stream object restarts the keystream: whatever key (block function E1),
-   nonce and history the object has been through, init2 with a nonce - under the same key or under
-   a new one (E2) - makes the following calls produce ctr_spec from position 0 again *)
-Theorem ctr_reinit_restarts :
-  forall (E1 E2 : list N -> list N),
-    (forall b, length (E1 b) = 16%nat) -> (forall b, length (E2 b) = 16%nat) ->
-    forall hw1 hw2 nonce1 nonce2 any history s1 outs1 chunks,
-      st_wf any -> N.of_nat (length (concat history)) < two64 ->
-      stream_all E1 hw1 (init2 15 255 nonce1 any) history = Ok (s1, outs1) ->
-      N.of_nat (length (concat chunks)) < two64 ->
-      exists s2 outs2,
-        stream_all E2 hw2 (init2 15 255 nonce2 s1) chunks = Ok (s2, outs2) /\
-        concat outs2 = ctr_spec E2 nonce2 (concat chunks).
-Proof.
-  intros E1 E2 HE1 HE2 hw1 hw2 nonce1 nonce2 any history s1 outs1 chunks Hwf Hb1 Hrun Hb2.
-  destruct (stream_all_spec E1 HE1 nonce1 0 eq_refl hw1 history 0 (init2 15 255 nonce1 any)
-              (init2_inv E1 nonce1 any Hwf)) as (s1' & o1 & H1 & _ & _ & Hinv1); [lia|].
-  rewrite Hrun in H1. inversion H1; subst s1' o1.
-  apply ctr_inv_wf in Hinv1.
-  destruct (ctr_stream_correct E2 HE2 hw2 nonce2 s1 chunks Hinv1 Hb2) as (s2 & o2 & H2 & Hc2 & _).
-  exists s2, o2. split; assumption.
-Qed.
+    intros Hb. unfold pre_whole, Ref.pre_whole, two64 in *.
+    destruct (bytectr s mod 16 =? 0) eqn:Hm; cbn [negb];
+      [|destruct (bytectr s mod 16 + bl <=? 16) eqn:Hfit];
+      evaluate; rewrite ?nonzero_b2z; repeat decide_if; ev; fold_closed; guards; try reflexivity.
+    Show.
+  Abort.
+End Bridge.
